@@ -234,7 +234,41 @@ def compare_tables(p, exp, check_derived=True):
                     field = "photos"
                 out.append((f"tables:{kind}:{field}", f"{m} line {i}: got {g!r} expected {w!r}"))
                 break
+    if not out:
+        out.extend(pdg_name_route(p, [m for m in allexp if m in obs]))
     return out
+
+
+def pdg_name_route(p, mothers, limit=6):
+    """The documented other way to name a mother: by its PDG name (`pdg_name=True`).  It must answer what the EvtGen name answers."""
+    from . import names as N  # noqa: PLC0415
+
+    out = []
+    evt2pdg = N.tables()["evt2pdg"]
+    todo = [m for m in mothers if evt2pdg.get(m)][:limit]
+    for m in todo:
+        for pdg in evt2pdg[m][:1]:
+            ROUTE_COUNT[0] += 1
+            try:
+                with warnings.catch_warnings():
+                    warnings.simplefilter("ignore")
+                    a, b = p.list_decay_modes(m), p.list_decay_modes(pdg, pdg_name=True)
+                    pa, pb = io.StringIO(), io.StringIO()
+                    with contextlib.redirect_stdout(pa):
+                        p.print_decay_modes(m, print_model=True, display_photos_keyword=True)
+                    with contextlib.redirect_stdout(pb):
+                        p.print_decay_modes(pdg, pdg_name=True, print_model=True, display_photos_keyword=True)
+            except Exception as e:  # noqa: BLE001
+                out.append(("tables:by-pdg-name:raised", f"{m} asked as {pdg!r} with pdg_name=True: {type(e).__name__}: {e}"))
+                continue
+            if a != b:
+                out.append(("tables:by-pdg-name:differs", f"list_decay_modes({pdg!r}, pdg_name=True) = {b!r}, list_decay_modes({m!r}) = {a!r}"))
+            elif pa.getvalue() != pb.getvalue():
+                out.append(("tables:by-pdg-name:printed-table-differs", f"print_decay_modes({pdg!r}, pdg_name=True) prints {pb.getvalue()!r}, by EvtGen name {pa.getvalue()!r}"))
+    return out
+
+
+ROUTE_COUNT = [0]
 
 
 def compare_globals(p, exp):
